@@ -202,6 +202,14 @@ def run(chk, only=None):
             chk.violation("fakedb and the Coq statement semantics disagree (%s): the database stand-in behind the AT checks is not validated on this run"
                           % ", ".join(map(str, m.get("kinds", []))),
                           {"correspondence": "coq/At/StmtCases.v", "disagreement": {k: m.get(k) for k in ("seed", "case", "step", "kinds", "ddl", "sql", "args", "fakedb_answer")}}, False)
+        xt = fakedb_xcheck.tx_stage(chk, 300 if chk.tier == "quick" else 6000)
+        if xt["mismatches"] and not chk.violations:
+            m = xt["mismatches"][0]
+            chk.violation("fakedb's transaction/lock layer and the Coq model coq/At/Tx.v disagree (%s): the database stand-in behind the AT checks is not validated on this run"
+                          % ", ".join(map(str, m.get("kinds", []))),
+                          {"correspondence": "coq/At/TxCases.v", "disagreement": {k: m.get(k) for k in ("seed", "case", "step", "kinds", "sql", "fakedb_answer", "fakedb_locks")}}, False)
+        chk.coverage["fakedb_tx_layer_vs_coq"] = {k: xt.get(k) for k in ("cases", "statements", "programs", "skipped")}
+        chk.coverage["fakedb_tx_layer_vs_coq"]["mismatches"] = len(xt["mismatches"])
         chk.coverage["fakedb_vs_coq_semantics"] = {k: xc.get(k) for k in ("cases", "statements", "programs", "skipped", "skipped_model")}
         chk.coverage["fakedb_vs_coq_semantics"]["mismatches"] = len(xc["mismatches"])
         chk.coverage["fakedb_vs_coq_semantics"]["theorems"] = len(xp.get("thms") or [])
